@@ -1,29 +1,22 @@
 import JL.Generated.Fns
-import JL.Lemmas.TieAuto
-import JL.Lemmas.TieB
+import JL.Lemmas.TieLoops
 import JL.Tie.to_number
 /-! tie: `abstract_max`, as translated from the crate's current source, is the model's function - for every input -/
 namespace JL.Tie
-open JL
+open JL JL.Lemmas.TieLoops
+set_option linter.unusedSimpArgs false  -- which of the listed facts are used depends on how the source is spelled
 
-/-- one step of the model's fold -/
-def maxStep (acc : F64) (v : Json) : Option F64 :=
-  match JsOp.toNumber v with
-  | some n => some (if F64.gt n acc then n else acc)
-  | none => none
-
-theorem abstractMax_eq (items : List Json) : JsOp.abstractMax items = items.foldlM maxStep (F64.inf true) := rfl
-
-/- Two ways of going over the operands are recognised: a `fold` over the converted operands whose accumulator is a `Result`
-(`TieB.fold_opt_tie`), and a `for` loop that returns at the first failing conversion (`TieAuto.for_opt`). Either way the body
-is arbitrary: that it performs one step of the model's fold is closed by `tie_close`. -/
+/- The accumulation may be spelled `iter.map(..).fold(Ok(init), ..)`, `iter.fold(Ok(init), ..)` or as a `for` loop with `?`:
+`rs_loop_opt` (`TieLoops`) brings each spelling to the model's `List.foldlM maxStep`; what is left is the step equation, proved
+the same way whatever the spelling: split on what the model's step looks at, then `simp [rs]`. -/
 theorem abstract_max (items : List Json) : Gen.abstract_max items = JsOp.abstractMax items := by
+  unfold Gen.abstract_max
   rw [abstractMax_eq]
-  simp only [Gen.abstract_max]
-  first
-    | (refine Lemmas.TieB.fold_opt_tie _ _ maxStep ?_ ?_ _ _ <;> intros <;>
-        tie_close [maxStep, to_number] splitting JsOp.toNumber)
-    | (rw [Lemmas.TieAuto.for_opt maxStep] <;> intros <;>
-        tie_close [maxStep, to_number] splitting JsOp.toNumber List.foldlM)
+  rs_loop_opt maxStep
+  intro a v
+  simp only [to_number, maxStep]
+  cases JsOp.toNumber v with
+  | none => simp [rs]
+  | some n => cases h : F64.lt a n <;> simp [rs, F64.gt, h]
 
 end JL.Tie
